@@ -52,7 +52,7 @@ func (f fileSpec) stmts() []string {
 func (f fileSpec) content() string {
 	var b strings.Builder
 	if f.Ckpt {
-		b.WriteString("-- atlas:checkpoint\n\n")
+		b.WriteString(execrun.CkptHeader(f.name()))
 	}
 	for _, s := range f.stmts() {
 		b.WriteString(s + "\n")
